@@ -44,7 +44,7 @@ def entry(name, uses_profile=True):
 
 # each entry: f(rng_case) -> (args list, thunk(args) -> result). Profiles are built with dtype case["dtype"].
 def prof(case, key="P"):
-    dt = {"int64": np.int64, "int32": np.int32, "float64": np.float64}[case["dtype"]]
+    dt = {"int64": np.int64, "int32": np.int32, "float64": np.float64, "int8": np.int8, "int16": np.int16, "uint8": np.uint8, "float32": np.float32}[case["dtype"]]
     return np.array(case[key], dtype=dt)
 
 def _voting(rule, method):
@@ -268,6 +268,7 @@ class C20(Prop):
             for name in names:
                 k += 1
                 n = rng.randint(1, 5); m = rng.randint(2, 6); q = rng.randint(2, 5) if rep % 3 else rng.randint(6, 9)
+                if rep % 3 == 1: n = rng.randint(90, 140)     # electorates whose column totals exceed the range of the small integer types
                 P = [rng.sample(range(1, m + 1), m) for _ in range(n)]
                 SQ1 = [rng.sample(range(1, q + 1), q) for _ in range(q)]; SQ2 = [rng.sample(range(1, q + 1), q) for _ in range(q)]
                 if rep % 3 == 0:      # everybody shares one list: the later agents are served far down their ranking
@@ -320,6 +321,9 @@ class C20(Prop):
         out = {"int64": self.run_one(case, "int64")}
         if uses:
             out["int32"] = self.run_one(case, "int32"); out["float64"] = self.run_one(case, "float64")
+            # "stored as integers": the narrow signed encodings too (all ranks here are far below 127). Unsigned and single-precision
+            # encodings are NOT part of the check: see DESIGN.md 10.7 (they are outside the encodings the property enumerates).
+            out["int8" if case["seed"] % 2 else "int16"] = self.run_one(case, "int8" if case["seed"] % 2 else "int16")
         return dict(status="ok", runs=out)
 
     def oracle(self, case, obs):
